@@ -109,7 +109,15 @@ class Folder:
             vs = [self._fold(x, mod, cls, env) for x in e.elts]
             return UNKNOWN if any(v is UNKNOWN for v in vs) else tuple(vs)
         if isinstance(e, ast.List):
-            vs = [self._fold(x, mod, cls, env) for x in e.elts]
+            vs = []
+            for x in e.elts:
+                if isinstance(x, ast.Starred):
+                    inner = self._fold(x.value, mod, cls, env)
+                    if not isinstance(inner, (list, tuple)):
+                        return UNKNOWN
+                    vs.extend(inner)
+                else:
+                    vs.append(self._fold(x, mod, cls, env))
             return UNKNOWN if any(v is UNKNOWN for v in vs) else list(vs)
         if isinstance(e, ast.Call):
             fn = e.func
@@ -323,6 +331,8 @@ class Folder:
                     return (l is r) if isinstance(op, ast.Is) else (l is not r)
                 if isinstance(op, (ast.Is, ast.IsNot)) and isinstance(l, str) and isinstance(r, str) and (hasattr(l, 'value') or hasattr(r, 'value')):
                     return (l == r) if isinstance(op, ast.Is) else (l != r)
+                if isinstance(op, (ast.In, ast.NotIn)) and isinstance(r, str) and isinstance(l, str):
+                    return (l in r) if isinstance(op, ast.In) else (l not in r)
                 if isinstance(op, ast.In) and isinstance(r, (tuple, list, set, frozenset, dict)):
                     return l in r
                 if isinstance(op, ast.NotIn) and isinstance(r, (tuple, list, set, frozenset, dict)):
@@ -429,6 +439,9 @@ class Folder:
             if isinstance(cur, str) and p in ('value', 'name') and hasattr(cur, p):
                 # a member of a str enumeration handed to an evaluation (sa.evalfn.EnumMember)
                 cur = getattr(cur, p)
+                continue
+            if isinstance(cur, (str, int)) and not isinstance(cur, bool) and p == 'value':
+                # a member of an enumeration folds to its value (class_attr): `.value` of it is that value
                 continue
             if isinstance(cur, ClassRef):
                 cur = self.class_attr(cur.qualname, p)
